@@ -732,6 +732,57 @@ async def c11_trigger_expression_context(w):
             "expected": "all evaluators in file.decl; the filter sees file.decl's limit = 5, so it is true"}
 
 
+async def c09_dm_stop_during_start(w):
+    """Real DecoratorManager with three recording decorators; stop() runs while start() is suspended inside the second
+    decorator's start().  Nothing may be started after the stop, and every decorator whose start began is stopped once."""
+    from custom_components.pyscript.decorator_abc import DecoratorManager, DecoratorManagerStatus, Decorator
+    await boot_full(legacy=False)
+    log = []
+    gate = asyncio.Event()
+
+    class Dec:
+        def __init__(self, i):
+            self.i = i
+
+        async def start(self):
+            log.append(("start", self.i))
+            if self.i == 1:
+                await gate.wait()
+
+        async def stop(self):
+            log.append(("stop", self.i))
+
+        def __repr__(self):
+            return f"@dec{self.i}()"
+
+    class DM(DecoratorManager):
+        async def validate(self):
+            pass
+
+        async def dispatch(self, data):
+            pass
+    import logging
+    actx = type("Ctx", (), {"get_logger": lambda self: logging.getLogger("custom_components.pyscript.file.c09dm")})()
+    dm = DM(actx, "file.c09dm.f")
+    dm._decorators.extend(Dec(i) for i in range(3))
+    dm.status = DecoratorManagerStatus.VALIDATED
+    t = asyncio.get_running_loop().create_task(dm.start())
+    await settle(10)
+    await dm.stop()
+    gate.set()
+    err = None
+    try:
+        await asyncio.wait_for(t, 10)
+    except Exception as e:  # noqa
+        err = repr(e)
+    await shutdown()
+    starts = [i for op, i in log if op == "start"]
+    stops = [i for op, i in log if op == "stop"]
+    ok = starts == [0, 1] and all(stops.count(i) == 1 for i in (0, 1)) and all(stops.count(i) <= 1 for i in range(3)) and err is None
+    return {"reproduced": not ok, "observed": {"log": log, "error": err, "status": str(dm.status)},
+            "expected": "starts [0, 1]; decorators 0 and 1 stopped exactly once; decorator 2 never started"}
+
+
 async def c12_outgoing(w):
     """service.call / domain.service() with control-keyword look-alikes; data delivered must equal the given kwargs
     minus control keywords of the recognised type."""
